@@ -2048,7 +2048,16 @@ func (g *gen) aliasIdiom(ty byte, depth int) {
 	// the address lives in a local so that both accesses use the same value (engines then reuse
 	// the bounds knowledge of the first access for the second)
 	pl := g.privateLocal(I32)
-	g.i32const(a)
+	if g.chance(50, "aliasdyn") {
+		// a dynamic (but in-bounds, 8-byte aligned) address
+		g.expr(I32, 2)
+		g.i32const(0x38)
+		g.op1("i32.and", 0x71)
+		g.i32const(64)
+		g.op1("i32.add", 0x6a)
+	} else {
+		g.i32const(a)
+	}
 	g.localSet(pl)
 	g.localGet(pl)
 	if t64 {
@@ -2056,6 +2065,10 @@ func (g *gen) aliasIdiom(ty byte, depth int) {
 	} else {
 		g.memIns("i32.load", 0x28, 0, 0)
 	}
+	// the loaded value is parked in a local and used as the *second* operand later (the
+	// position from which back ends fold a load into the consuming instruction)
+	xl := g.privateLocal(ty)
+	g.localSet(xl)
 	// the intervening write
 	switch k := g.intn(6, "aliaswrite"); {
 	case k <= 1:
@@ -2077,6 +2090,7 @@ func (g *gen) aliasIdiom(ty byte, depth int) {
 			g.leaf(p)
 		}
 		g.f.emit(op.Name, wasmenc.NewB().Raw(op.Prefix).Append(wasmenc.U32(op.Sub)).Append(wasmenc.U32(log2(op.Width))).Append(wasmenc.U32(0)).Bytes())
+		g.localGet(xl)
 		if t64 {
 			g.op1("i64.add", 0x7c)
 		} else {
@@ -2095,6 +2109,7 @@ func (g *gen) aliasIdiom(ty byte, depth int) {
 	}
 	// use of the loaded value
 	g.expr(ty, depth-1)
+	g.localGet(xl)
 	if t64 {
 		g.op1("i64.add", 0x7c)
 	} else {
